@@ -27,6 +27,8 @@ struct RequestData {
     abort_handle: AbortHandle,
     /// The key to remove the timer for the request's deadline.
     deadline_key: delay_queue::Key,
+    /// When the armed timer is due.
+    timer_due: tokio::time::Instant,
     /// How much of the time until the deadline the timer has not been armed with yet. Nonzero
     /// only for deadlines further away than [`MAX_DEADLINE_TIMEOUT`].
     deadline_remainder: Duration,
@@ -64,11 +66,13 @@ impl InFlightRequests {
             hash_map::Entry::Vacant(vacant) => {
                 let time_until_deadline = deadline.time_until();
                 let timeout = time_until_deadline.min(MAX_DEADLINE_TIMEOUT);
+                let timer_due = tokio::time::Instant::now() + timeout;
                 let (abort_handle, abort_registration) = AbortHandle::new_pair();
                 let deadline_key = self.deadlines.insert(request_id, timeout);
                 vacant.insert(RequestData {
                     abort_handle,
                     deadline_key,
+                    timer_due,
                     deadline_remainder: time_until_deadline - timeout,
                     span,
                 });
@@ -118,18 +122,19 @@ impl InFlightRequests {
             return Poll::Ready(None);
         }
         loop {
-            let expired = match ready!(self.deadlines.poll_expired(cx)) {
-                Some(expired) => expired,
+            let request_id = match ready!(self.deadlines.poll_expired(cx)) {
+                Some(expired) => expired.into_inner(),
                 None => return Poll::Ready(None),
             };
-            // How long ago the timer fired.
-            let late = tokio::time::Instant::now().saturating_duration_since(expired.deadline());
-            let request_id = expired.into_inner();
             if let Some(request_data) = self.request_data.get_mut(&request_id) {
+                // How long ago the timer was due.
+                let now = tokio::time::Instant::now();
+                let late = now.saturating_duration_since(request_data.timer_due);
                 let rest = request_data.deadline_remainder.saturating_sub(late);
                 if !rest.is_zero() {
                     // The timer was armed with a clamped timeout: arm it with the rest.
                     let timeout = rest.min(MAX_DEADLINE_TIMEOUT);
+                    request_data.timer_due = now + timeout;
                     request_data.deadline_remainder = rest - timeout;
                     request_data.deadline_key = self.deadlines.insert(request_id, timeout);
                     continue;
